@@ -140,6 +140,7 @@ func allJobs(f lib.Flags) []job {
 	jobs = append(jobs, reorgJobs(f)...)
 	jobs = append(jobs, migrationJobs(f)...)
 	jobs = append(jobs, restageJobs(f)...)
+	jobs = append(jobs, retargetJobs(f)...)
 	jobs = append(jobs, pureJobs(f)...)
 	jobs = append(jobs, randomJobs(f)...)
 	return jobs
